@@ -24,10 +24,10 @@ ENTRY = dict(
         "event continues once per firing it was listening for)"),
     technique="Lean 4 proof (inductive invariants over a small-step machine) + exhaustive actor differential on the grid of the quantifier",
     lean_modules=["Bpmn.Props.C13", "Bpmn.Props.C13Current"],
-    families=["c13", "c13e", "c13e2", "c13many"],
+    families=["c13", "c13e", "c13e2", "c13many", "c13two"],
     exhaustive=True,
     multi_seed=False,
-    rule=("c13many: a cycle timer with an end bound on a mock clock that holds 0 / 500 / 30000 / 50000 OTHER pending wake-ups, one clock change passing the next due time, the bound and all of them (three attempts each): nothing is delivered once the clock reads beyond the bound; definitions: date (future / now / past), duration (10 s / 0), cycles R0..R3 and unbounded x {no start, start "
+    rule=("c13two: 2..3 tokens (a parallel fork straight into it) wait at ONE timer catch event (duration / date) when its timer fires once at its due time: each of them continues exactly once; c13many: a cycle timer with an end bound on a mock clock that holds 0 / 500 / 30000 / 50000 OTHER pending wake-ups, one clock change passing the next due time, the bound and all of them (three attempts each): nothing is delivered once the clock reads beyond the bound; definitions: date (future / now / past), duration (10 s / 0), cycles R0..R3 and unbounded x {no start, start "
           "ahead, start passed} x {no end, end between / exactly on a due time, end before start, R/start/end}; "
           "through timer.New (ISO 8601 text) and, for start+interval+end together, through the verif export of "
           "recurringTimer; histories: every strictly increasing sequence of up to 6 (quick: 2) clock settings from "
